@@ -431,6 +431,9 @@ pub fn shrinks(sc: &Scenario, names: &[&str]) -> Vec<Scenario> {
                             let mut c = sc.clone();
                             c.fault = FaultSpec::Vis(k, e);
                             out.push(c);
+                            let mut c = sc.clone();
+                            c.fault = FaultSpec::Seed(k, e);
+                            out.push(c);
                         }
                     }
                 }
